@@ -55,6 +55,7 @@ RULE = (
     "whose flows compile to >= 1 jump/fork. Distinct by program text / file path."
 )
 ASSUMPTIONS = [
+    "generated 2.x programs are parsed once and compiled twice from the same parsed flows (what two LLMRails instances built from one RailsConfig do); both compilations must be closed",
     "scope closure is checked per scope name (every Begin is followed by an End, no End before its Begin), not per control-flow path",
     "duplicate labels are not forbidden by the statement and are not reported",
     "a shipped 2.x file that references flows defined outside the standard library and its own directory is counted as skipped",
@@ -748,6 +749,22 @@ def _v1_when_shape(text):
     return sorted(labels)
 
 
+def _check_v2_text(text):
+    """Parses the program once and compiles the parsed flows twice - what two LLMRails instances built from one RailsConfig do -:
+    every compilation must be closed."""
+    flows = smh.parse(text)
+    for rnd in (1, 2):
+        tag = "" if rnd == 1 else "recompiled-"
+        try:
+            configs = _compile_v2(flows)
+        except Exception as e:
+            raise Violation(f"v2-{tag}compile-error:" + type(e).__name__, f"{e!r}"[:300] + "\n" + text)
+        for name, cfg in configs.items():
+            bad, _ = check_v2_flow(cfg)
+            if bad:
+                raise Violation(f"v2-{tag}" + bad[0][0], ("second compilation of the same parsed flows: " if rnd == 2 else "") + f"flow {name!r}: {bad[0][1]}\n{text}")
+
+
 def prop(case):
     if case["leg"] == "file":
         return _file_case(case)
@@ -773,14 +790,7 @@ def prop(case):
         return ok(nt=total >= 3, labels=labels, view={"program": text, "jump_offsets": total})
     if case["leg"] == "v2loops":
         text = _v2l_text(case["body"])
-        try:
-            configs = _compile_v2(smh.parse(text))
-        except Exception as e:
-            raise Violation("v2-compile-error:" + type(e).__name__, f"{e!r}"[:300] + "\n" + text)
-        for name, cfg in configs.items():
-            bad, _ = check_v2_flow(cfg)
-            if bad:
-                raise Violation("v2-" + bad[0][0], f"flow {name!r}: {bad[0][1]}\n{text}")
+        _check_v2_text(text)
         labels = ["v2loops"] + _v2l_shape(case["body"])
         if case.get("family"):
             parts = case["family"].split("/")
@@ -802,14 +812,7 @@ def prop(case):
         return ok(nt=total >= 2, labels=["v1gen"], view={"program": text, "jump_offsets": total})
     text = co2.render(case["prog"])
     kinds = co2.count_kinds(case["prog"])
-    try:
-        configs = _compile_v2(smh.parse(text))
-    except Exception as e:
-        raise Violation("v2-compile-error:" + type(e).__name__, f"{e!r}"[:300] + "\n" + text)
-    for name, cfg in configs.items():
-        bad, _ = check_v2_flow(cfg)
-        if bad:
-            raise Violation("v2-" + bad[0][0], f"flow {name!r}: {bad[0][1]}\n{text}")
+    _check_v2_text(text)
     nt = kinds["maxdepth"] >= 2 or kinds["break"] + kinds["continue"] > 0 or kinds["matchg"] + kinds["awaitg"] > 0
     labels = ["v2gen", f"depth{min(kinds['maxdepth'], 3)}"]
     for k in ("while", "when", "if", "break", "continue", "awaitg", "matchg", "activate"):
